@@ -64,10 +64,15 @@ func genFrag(rng *RNG) frag {
 		}
 		return frag{"{#" + body + "#}", "linecomment"}
 	case 5:
-		bodies := []string{"", "x", "{{ 1/0 }}", "{% nosuchtag %}", "{{ undefined|nosuchfilter }}", "{% if %}", "{{ a.b.c( }}", "{% endif %}", "{% include \"nonexistent\" %}", "{{ boom() }}"}
+		bodies := []string{"", "x", "{{ x ? 1 : 2 }}", "{% if a $ b %}", "{{ a ~ b }}", "{{ é }}", "{% for ; %}", "{{ { }}", "{{ 1/0 }}", "{% nosuchtag %}", "{{ undefined|nosuchfilter }}", "{% if %}", "{{ a.b.c( }}", "{% endif %}", "{% include \"nonexistent\" %}", "{{ boom() }}"}
 		return frag{"{% comment %}" + rng.Pick(bodies) + "{% endcomment %}", "commenttag"}
 	case 6:
 		vs := []string{"{{ 1 }}", "{{ \"x\" }}", "{{ v }}", "{{ 7 + 1 }}", "{{ true }}", "{{ s|upper }}"}
+		if rng.Chance(1, 3) {
+			// a '-' marker: it trims the text it touches — the sequence generator puts these only
+			// where they touch no text, so that they must not change anything
+			return frag{rng.Pick([]string{"{{ v -}}", "{{- v }}", "{{- v -}}", "{%- if 1 -%}a{%- endif -%}"}), "dashvar"}
+		}
 		return frag{rng.Pick(vs), "var"}
 	case 7:
 		ts := []string{"{% if 1 %}a{% endif %}", "{% if 0 %}a{% else %}b{% endif %}", "{% for i in l %}{{ i }}{% endfor %}", "{% with q=1 %}{{ q }}{% endwith %}", "{% firstof 0 \"z\" %}", "{% spaceless %}<a> <b>{% endspaceless %}"}
@@ -152,6 +157,13 @@ func suiteC06Render(cfg Config, res *Result) {
 		kinds := ""
 		for j := range frs {
 			frs[j] = genFrag(rng)
+			// a fragment carrying a '-' marker may not touch literal text (it would rightly trim it)
+			for frs[j].kind == "dashvar" && j > 0 && (frs[j-1].kind == "text" || frs[j-1].kind == "verbatim") {
+				frs[j] = genFrag(rng)
+			}
+			for j > 0 && frs[j-1].kind == "dashvar" && (frs[j].kind == "text" || frs[j].kind == "verbatim") {
+				frs[j] = genFrag(rng)
+			}
 			sb.WriteString(frs[j].src)
 			kinds += frs[j].kind[:1]
 		}
